@@ -613,6 +613,7 @@ vbi_draw_vt_page_region(vbi_page *pg,
 	int count, row_adv;
 	int conceal, off, unicode;
 	vbi_char *ac;
+	vbi_size size;
         int canvas_type;
 	int i;
 
@@ -668,7 +669,21 @@ vbi_draw_vt_page_region(vbi_page *pg,
                                 pen.rgba[1] = pg->color_map[ac->foreground];
                         }
 
-			switch (ac->size) {
+			size = ac->size;
+
+			/* The right half of a double width character in the
+			   last column lies outside the region (and, in the
+			   last column of the page, outside the canvas). */
+			if (1 == count) {
+				if (VBI_DOUBLE_WIDTH == size)
+					size = VBI_NORMAL_SIZE;
+				else if (VBI_DOUBLE_SIZE == size)
+					size = VBI_DOUBLE_HEIGHT;
+				else if (VBI_DOUBLE_SIZE2 == size)
+					size = VBI_DOUBLE_HEIGHT2;
+			}
+
+			switch (size) {
 			case VBI_OVER_TOP:
 			case VBI_OVER_BOTTOM:
 				break;
@@ -680,7 +695,7 @@ vbi_draw_vt_page_region(vbi_page *pg,
 					if (font)
 						draw_drcs(canvas_type, canvas, rowstride,
 							  (uint8_t *) &pen, ac->drcs_clut_offs,
-							  font, unicode & 0x3F, ac->size);
+							  font, unicode & 0x3F, size);
 					else /* shouldn't happen */
 						draw_blank(canvas_type, canvas, rowstride,
 							   ((canvas_type == 1) ? pen.pal8[0]: pen.rgba[0]),
@@ -695,7 +710,7 @@ vbi_draw_vt_page_region(vbi_page *pg,
 						   unicode_wstfont2 (unicode, ac->italic),
 						   ac->bold,
 						   ac->underline << 9 /* cell row 9 */,
-						   ac->size);
+						   size);
 				}
 			}
 
